@@ -192,7 +192,7 @@ def r3(ctx):
             ctx.check("match_date:day[%d,month-length=%d]" % (dp, L), got == {d for d in range(1, L + 1) if want(d, L)}, where(m, f),
                       "day pattern %d matches days %s of a %d-day month" % (dp, sorted(got), L))
     ld = [s for s in walk_shallow(f) if isinstance(s, ast.Assign) and norm(s.targets[0]) == "last_day"]
-    ctx.check("match_date:last-day-source", len(ld) == 1 and norm(ld[0].value) == "calendar.monthrange(year + 1900, month)[1]", where(m, f), "the last day must be that of the date's own month and year")
+    ctx.check("match_date:last-day-source", len(ld) == 1 and _is_month_length(ev, ld[0].value), where(m, f), "the last day must be that of the date's own month and year")
     for yp, y, want in ((255, 120, True), (120, 120, True), (121, 120, False)):
         ctx.check("match_date:year[%d,%d]" % (yp, y), match({"year_p": yp, "year": y}) == {str(want)}, where(m, f), "year pattern %d against year %d" % (yp, y))
     for wp, w, want in ((255, 3, True), (3, 3, True), (4, 3, False)):
@@ -230,6 +230,9 @@ def r3(ctx):
             if _outcomes(ps2, ev2, e) == {"True"}:
                 got.add(mo)
         ctx.check("match_weeknday:month[%d]" % mp, got == {mo for mo in range(1, 13) if want(mo)}, where(m2, g), "month pattern %d matches months %s" % (mp, sorted(got)))
+    ld2 = [s for s in walk_shallow(g) if isinstance(s, ast.Assign) and norm(s.targets[0]) == "last_day"]
+    ctx.check("match_weeknday:last-day-source", len(ld2) == 1 and _is_month_length(ev2, ld2[0].value), where(m2, g),
+              "the last day must be that of the date's own month and year (February has 29 days in leap years)")
     up = [s for s in walk_shallow(g) if isinstance(s, ast.Assign) and isinstance(s.targets[0], ast.Tuple) and [norm(e) for e in s.targets[0].elts] == ["month_p", "week_of_month_p", "day_of_week_p"]]
     ctx.check("match_weeknday:octet-order", len(up) == 1, where(m2, g), "a BACnetWeekNDay is month, week-of-month, day-of-week in this order")
     # date ranges: an unspecified end leaves that side open, otherwise the bounds are inclusive
@@ -276,6 +279,16 @@ def r3(ctx):
             at = atom_texts(facts_at(call))
             ctx.check("date_in_calendar_entry:%s-guard" % call.func.id, (norm(call.args[1]), True) in at, where(m3, call), "%s must be used exactly when the entry carries that alternative" % call.func.id)
     ctx.check("date_in_calendar_entry:dispatch", got == want, where(m3, h), "calendar entry alternatives must go to their own matcher (found %r)" % got)
+
+
+def _is_month_length(ev, v):
+    """calendar.monthrange(<gregorian year of the date>, <its month>)[1]: the length of that very month (29 in a leap February)"""
+    if not (isinstance(v, ast.Subscript) and isinstance(v.value, ast.Call) and norm(v.value.func) in ("calendar.monthrange", "monthrange") and len(v.value.args) == 2):
+        return False
+    try:
+        return ev.value(v.slice, {}) == 1 and ev.value(v.value.args[0], {"year": 120}) == 2020 and ev.value(v.value.args[0], {"year": 0}) == 1900 and ev.value(v.value.args[1], {"month": 2}) == 2
+    except (NotConst, TypeError):
+        return False
 
 
 def _rng(s):
@@ -345,6 +358,14 @@ def r4(ctx):
     ctx.check("eval:highest-priority-wins", ok, where(m, f), "the first (lowest numbered) slot holding a value decides")
     mins = [s for s in walk_shallow(f) if isinstance(s, ast.Assign) and norm(s.targets[0]) == "earliest_transition" and isinstance(s.value, ast.Call) and norm(s.value.func) == "min"]
     ctx.check("eval:earliest-transition", len(mins) == 2 and all("earliest_transition" in [norm(a) for a in s.value.args] for s in mins), where(m, f), "the reported transition is the minimum over the pending ones (and midnight)")
+    # every result reports the accumulated minimum, and a slot's own transition is folded in before the slot can decide
+    for i, r in enumerate([x for x in walk_shallow(f) if isinstance(x, ast.Return) and isinstance(x.value, ast.Tuple) and len(x.value.elts) == 2]):
+        ctx.check("eval:return#%d:reports-earliest" % (i + 1), norm(r.value.elts[1]) == "earliest_transition", where(m, r),
+                  "eval returns %s as the next transition instead of the minimum over all pending transitions: a higher-priority entry that starts earlier is slept through" % norm(r.value.elts[1]))
+    if sel and rs and len(rs) == 1:
+        folded = [s_ for s_ in mins if any(s_ is y for y in ast.walk(sel[0]))]
+        ok = len(folded) == 1 and folded[0].lineno < rs[0].lineno
+        ctx.check("eval:slot-transition-folded-before-decision", ok, where(m, sel[0]), "inside the priority scan the slot's next transition must be merged into the minimum before the slot's value is returned")
     nd = [s for s in walk_shallow(f) if isinstance(s, ast.Assign) and norm(s.targets[0]) == "next_day"]
     ctx.check("eval:midnight", len(nd) == 1 and prog.try_const(m, nd[0].value) == (24, 0, 0, 0), where(m, f), "without a later entry the next transition is midnight (24:00)")
     # weekday index
